@@ -104,7 +104,7 @@ class Known:
     def match_case(self, key):
         """Exact listed case (histories / configurations / argument shapes): key is a string."""
         for m, fid in self.shapes:
-            if m.get("key") == key:
+            if m.get("key") == key or (m.get("endswith") and key.endswith(m["endswith"])) or (m.get("startswith") and key.startswith(m["startswith"])):
                 self.seen[fid] = self.seen.get(fid, 0) + 1
                 return fid
         return None
